@@ -1,5 +1,6 @@
 import PrimitivModel.Model.Graph
 import PrimitivModel.Lemmas.GraphSweep
+import PrimitivModel.Lemmas.GraphLive
 /-!
 C06 — gradient accumulation and isolation protocol of `backward()`.
 
@@ -188,6 +189,111 @@ theorem later_nodes_irrelevant_backward (T : TOps τ) (extra : List (OpInfo τ))
   appendOps_backward T extra s a hv hw
 
 example : exSquare.validAddr ⟨1, 0⟩ = true ∧ ArgsBelow exSquare := ⟨by decide, argsBelow_of_B (by decide)⟩
+
+/-- `reset_gradient()` of parameter `p` (modelled as the history operation `setGrad p (zeros n)`):
+afterwards the gradient of `p` is exactly `zeros n` and nothing else has changed; and — the base case
+of the accumulation — a following `backward` leaves in `p` exactly `D p`, the result from zero
+gradients, when `zeros n` is neutral on the left (the other parameters get `g0 q + D q` as always). -/
+theorem reset_gradient_zero (T : TOps τ) (hassoc : ∀ x y z : τ, T.add (T.add x y) z = T.add x (T.add y z))
+    (s s0 : State τ) (a : Addr) (p n : Nat) (z : Nat → τ) (hz : ∀ q x, T.add x (z q) = x)
+    (hzl : ∀ x, T.add (T.zeros n) x = x)
+    (hr : (Cmd.setGrad p (T.zeros n)).run T s = some s0) :
+    s0.params.grad p = T.zeros n ∧ (∀ q, q ≠ p → s0.params.grad q = s.params.grad q) ∧
+    s0.ops = s.ops ∧ s0.params.value = s.params.value ∧ s0.log = s.log ∧ s0.rndPos = s.rndPos ∧
+    (backward T s0 a).1.params.grad p = (backward T (s.mapPG fun _ => z) a).1.params.grad p ∧
+    (∀ q, q ≠ p → (backward T s0 a).1.params.grad q =
+      T.add (s.params.grad q) ((backward T (s.mapPG fun _ => z) a).1.params.grad q)) := by
+  simp only [Cmd.run, Option.some.injEq] at hr
+  subst hr
+  have h := backward_adds_gen T hassoc
+    { s with params := { s.params with grad := fun q => if q = p then T.zeros n else s.params.grad q } } a z hz
+  refine ⟨by simp, fun q hq => by simp [hq], rfl, rfl, rfl, rfl, ?_, fun q hq => ?_⟩
+  · rw [h]
+    show T.add (if p = p then T.zeros n else s.params.grad p) _ = _
+    rw [if_pos rfl, hzl]
+    rfl
+  · rw [h]
+    show T.add (if q = p then T.zeros n else s.params.grad q) _ = _
+    rw [if_neg hq]
+    rfl
+
+example : (∀ x y z : Int, TInt.add (TInt.add x y) z = TInt.add x (TInt.add y z)) ∧
+    (∀ (q : Nat) (x : Int), TInt.add x ((fun _ => (0 : Int)) q) = x) ∧
+    (∀ x : Int, TInt.add (TInt.zeros 1) x = x) ∧
+    ∃ s0, (Cmd.setGrad 0 (TInt.zeros 1)).run TInt exSquare = some s0 :=
+  ⟨fun x y z => Int.add_assoc x y z, fun _ x => Int.add_zero x, fun x => Int.zero_add x, _, rfl⟩
+
+/-- Two graphs `sA`, `sB` over the same parameters (`sB.params = sA.params`; the parameter table is
+threaded from one pass to the next with `withParams`), `add` associative and commutative, `z` neutral:
+`backward` in A then in B, or in B then in A, accumulates both derivatives `DA`, `DB` (each graph's
+result from zero gradients) on top of the prior gradients — the same table of gradients in either
+order, parameter values unchanged.  What a pass does to its own graph (nodes, outcome) does not depend
+on whether the other graph's pass ran before, and a pass does not touch the other graph's nodes
+(its node values and node gradients are not even an input of the pass). -/
+theorem shared_parameters_across_graphs (T : TOps τ)
+    (hassoc : ∀ x y z : τ, T.add (T.add x y) z = T.add x (T.add y z))
+    (hcomm : ∀ x y : τ, T.add x y = T.add y x)
+    (sA sB : State τ) (a b : Addr) (z : Nat → τ) (hz : ∀ p x, T.add x (z p) = x)
+    (hshare : sB.params = sA.params) :
+    let DA := (backward T (sA.mapPG fun _ => z) a).1.params.grad
+    let DB := (backward T (sB.mapPG fun _ => z) b).1.params.grad
+    let rA := backward T sA a
+    let rB := backward T (sB.withParams rA.1.params) b      -- A, then B
+    let rB' := backward T sB b
+    let rA' := backward T (sA.withParams rB'.1.params) a    -- B, then A
+    (∀ p, rB.1.params.grad p = T.add (T.add (sA.params.grad p) (DA p)) (DB p)) ∧
+    (∀ p, rA'.1.params.grad p = T.add (T.add (sA.params.grad p) (DB p)) (DA p)) ∧
+    rB.1.params.grad = rA'.1.params.grad ∧
+    rB.1.params.value = sA.params.value ∧ rA'.1.params.value = sA.params.value ∧
+    rA'.1.ops = rA.1.ops ∧ rA'.2 = rA.2 ∧ rB.1.ops = rB'.1.ops ∧ rB.2 = rB'.2 ∧
+    (sB.withParams rA.1.params).ops = sB.ops ∧ (sA.withParams rB'.1.params).ops = sA.ops := by
+  intro DA DB rA rB rB' rA'
+  have hvA : rA.1.params.value = sB.params.value := by rw [hshare]; exact backward_pvalue T sA a
+  have hvB : rB'.1.params.value = sA.params.value := by rw [← hshare]; exact backward_pvalue T sB b
+  have hA := backward_adds_gen T hassoc sA a z hz
+  have hB := backward_adds_gen T hassoc sB b z hz
+  have hAB := backward_withParams T hassoc sB b z hz rA.1.params hvA
+  have hBA := backward_withParams T hassoc sA a z hz rB'.1.params hvB
+  have gA : ∀ p, rA.1.params.grad p = T.add (sA.params.grad p) (DA p) := fun p => by
+    show (backward T sA a).1.params.grad p = _; rw [hA]; rfl
+  have gB' : ∀ p, rB'.1.params.grad p = T.add (sA.params.grad p) (DB p) := fun p => by
+    show (backward T sB b).1.params.grad p = _; rw [hB, hshare]; rfl
+  have g1 : ∀ p, rB.1.params.grad p = T.add (T.add (sA.params.grad p) (DA p)) (DB p) := fun p => by
+    show (backward T (sB.withParams rA.1.params) b).1.params.grad p = _
+    rw [hAB, ← gA p]; rfl
+  have g2 : ∀ p, rA'.1.params.grad p = T.add (T.add (sA.params.grad p) (DB p)) (DA p) := fun p => by
+    show (backward T (sA.withParams rB'.1.params) a).1.params.grad p = _
+    rw [hBA, ← gB' p]; rfl
+  refine ⟨g1, g2, ?_, ?_, ?_, ?_, ?_, ?_, ?_, rfl, rfl⟩
+  · funext p
+    rw [g1 p, g2 p, hassoc, hassoc, hcomm (DA p) (DB p)]
+  · show (backward T (sB.withParams rA.1.params) b).1.params.value = _
+    rw [backward_pvalue]; exact backward_pvalue T sA a
+  · show (backward T (sA.withParams rB'.1.params) a).1.params.value = _
+    rw [backward_pvalue]; exact hvB
+  · show (backward T (sA.withParams rB'.1.params) a).1.ops = (backward T sA a).1.ops
+    rw [hBA, hA]; rfl
+  · show (backward T (sA.withParams rB'.1.params) a).2 = (backward T sA a).2
+    rw [hBA, hA]
+  · show (backward T (sB.withParams rA.1.params) b).1.ops = (backward T sB b).1.ops
+    rw [hAB, hB]; rfl
+  · show (backward T (sB.withParams rA.1.params) b).2 = (backward T sB b).2
+    rw [hAB, hB]
+
+/-- `y = x * x` and `y' = stop_gradient(p0) + p1` over the same two integer parameters -/
+example : (∀ x y z : Int, TInt.add (TInt.add x y) z = TInt.add x (TInt.add y z)) ∧
+    (∀ x y : Int, TInt.add x y = TInt.add y x) ∧
+    (∀ (p : Nat) (x : Int), TInt.add x ((fun _ => (0 : Int)) p) = x) ∧
+    (exBlocked TInt 3 10).params = exSquare.params :=
+  ⟨fun x y z => Int.add_assoc x y z, fun x y => Int.add_comm x y, fun _ x => Int.add_zero x, rfl⟩
+
+/-- … on which both orders give gradient `10 + 6 + 0` for parameter 0 and `10 + 0 + 1` for parameter 1 -/
+example :
+    (backward TInt ((exBlocked TInt 3 10).withParams (backward TInt exSquare ⟨1, 0⟩).1.params) ⟨3, 0⟩).1.params.grad 0 = 16 ∧
+    (backward TInt (exSquare.withParams (backward TInt (exBlocked TInt 3 10) ⟨3, 0⟩).1.params) ⟨1, 0⟩).1.params.grad 0 = 16 ∧
+    (backward TInt ((exBlocked TInt 3 10).withParams (backward TInt exSquare ⟨1, 0⟩).1.params) ⟨3, 0⟩).1.params.grad 1 = 11 ∧
+    (backward TInt (exSquare.withParams (backward TInt (exBlocked TInt 3 10) ⟨3, 0⟩).1.params) ⟨1, 0⟩).1.params.grad 1 = 11 := by
+  decide
 
 /-! ## 5. blocked paths -/
 
